@@ -233,6 +233,32 @@ ThreshMix(on) ==
   ELSE {x \in NCOk({Thresh(k, <<b, w1, w2>>) : k \in 1..3, b \in TMB(0), w1 \in TMW(0), w2 \in TMW(0)}) : NoDupKeys(x) /\ KeyCanonical(x)}
 
 (***************************************************************************)
+(* Cost mix: every combinator over a key and a member whose cost differs   *)
+(* between a witness and a scriptSig, or between its branches (a k-of-n    *)
+(* multisig, a choice by OP_IF, d: / u: / l: wrappers, a hash): the static *)
+(* size figures (C09) are combined by a separate rule for every            *)
+(* combinator, and an error in one rule shows only when the two children   *)
+(* have unequal figures.  V-typed results are closed with and_v(X, 1).     *)
+(***************************************************************************)
+CMKids(a) == {Un("c", Leaf("pk_k", a)),
+              Ast(MultiName, 2, <<a, a + 1, a + 2>>, <<>>),
+              Bin("or_i", Un("c", Leaf("pk_k", a)), Un("c", Leaf("pk_k", a + 1))),
+              Bin("or_i", Leaf("0", 0), Un("c", Leaf("pk_k", a))),
+              Un("d", Un("v", Leaf("older", 10))),
+              Bin("and_v", Un("v", Leaf("sha256", 1)), Un("c", Leaf("pk_k", a)))}
+CMSlots(S) == S \cup {Un(w, x) : w \in {"a", "s", "v", "j", "n"}, x \in S} \cup {Un("v", Un("c", x)) : x \in S}
+CMClose(x) == LET t == TypeOf(x, Ctx) IN IF t.ok /\ t.b = "V" THEN Bin("and_v", x, Leaf("1", 0)) ELSE x
+CostMix(on) ==
+  IF on = 0 THEN {}
+  ELSE LET K1 == Un("c", Leaf("pk_k", 1))
+           K4 == Un("c", Leaf("pk_k", 4))
+           raw == {Bin(f, p, q) : f \in {"and_v", "and_b", "or_b", "or_c", "or_d", "or_i"}, p \in CMSlots({K1}), q \in CMSlots(CMKids(2))}
+                  \cup {Bin(f, p, q) : f \in {"and_v", "and_b", "or_b", "or_c", "or_d", "or_i"}, p \in CMSlots(CMKids(1)), q \in CMSlots({K4})}
+                  \cup {Tern("andor", K1, q, r) : q \in CMKids(2), r \in {Un("c", Leaf("pk_k", 5)), Leaf("0", 0)}}
+                  \cup {Tern("andor", K1, Un("c", Leaf("pk_k", 2)), r) : r \in CMKids(3)}
+       IN {y \in {CMClose(x) : x \in NCOk(raw)} : TypeOf(y, Ctx).ok /\ TypeOf(y, Ctx).b = "B" /\ NoDupKeys(y)}
+
+(***************************************************************************)
 (* Hash kinds: the universe enumerates one or two hash functions; every    *)
 (* enumerated fragment with a hash leaf is also produced with another of   *)
 (* the four kinds (chosen by position), so that all of sha256 / hash256 /  *)
